@@ -3,6 +3,9 @@ From Coq Require Import ZArith NArith List Bool Arith Lia.
 From Falcon.C18 Require Import Model Spec Proofs ProofsPump ProofsRecv ProofsCtl.
 Import ListNotations.
 
+Lemma logr_inv sent k r s : Inv sent s -> Inv sent (logr k r s).
+Proof. intros []. constructor; assumption. Qed.
+
 Theorem step_inv sent l s s' : Inv sent s -> step true l s = Some s' -> Inv sent s'.
 Proof.
   intros H Hs. destruct l; cbn in Hs.
@@ -14,6 +17,7 @@ Proof.
   - inversion Hs; subst. apply send_op_inv; assumption.
   - eapply close_call_inv; eauto.
   - eapply close_run_inv; eauto.
+  - destruct (ctl s); [|discriminate]. inversion Hs; subst. apply logr_inv. assumption.
 Qed.
 
 Theorem run_inv sent ls : forall s, Inv sent s -> Inv sent (run true ls s).
